@@ -29,7 +29,14 @@ ROOT = os.path.dirname(os.path.dirname(os.path.dirname(os.path.abspath(__file__)
 PARTS = 64
 
 
+
 def shards(tier, seed):
+    out = _shards(tier, seed)
+    # what runs under -O also runs in an interpreter that turns every warning into an error (-W error)
+    return out + [dict(s, _pyflags=["-W", "error"]) for s in out if s.get("_pyflags") == ["-O"]]
+
+
+def _shards(tier, seed):
     step = B3 // PARTS + 1
     out = [{"lo": lo, "hi": min(B3, lo + step)} for lo in range(0, B3, step)]
     # two slices again in interpreters that strip asserts / docstrings (the first 60,000 challenges, the pivot region)
